@@ -36,6 +36,7 @@ pub fn text_hash(s: &str) -> u64 {
 pub fn variant_items(v: &Variant) -> Vec<String> {
     let mut pr = Printer::new(&v.prog);
     pr.names.vars = v.var_names.clone();
+    pr.named_consts = v.flags.iter().any(|f| f == "named-consts");
     pr.items()
 }
 
